@@ -14,6 +14,11 @@ type Case struct {
 	Fin      string   `json:"finisher"`          // finisher label
 	Classes  []int    `json:"classes,omitempty"` // value class per argument slot (program order); missing = default
 	Readable string   `json:"readable,omitempty"`
+	// Strict: the handles are opened WITHOUT AllowGlobalUpdate (used by C19), so
+	// an update / delete without condition is refused instead of sent.
+	Strict bool `json:"allow_global_update_off,omitempty"`
+	// SessionAGU (with Strict): AllowGlobalUpdate is switched on by Session instead of Config.
+	SessionAGU bool `json:"allow_global_update_by_session,omitempty"`
 }
 
 // Slot is one argument position of a resolved program.
@@ -203,7 +208,14 @@ func (p *Prog) String() string {
 	for _, s := range p.Slots {
 		cls = append(cls, fmt.Sprintf("#%d@%s=%s", s.ID, s.Key, ClassName[s.Class]))
 	}
-	return fmt.Sprintf("model=%s :: db.%s  [%s]", ModelName[p.Case.Model], strings.Join(parts, "."), strings.Join(cls, " "))
+	agu := ""
+	if p.Case.Strict {
+		agu = " AllowGlobalUpdate=off"
+		if p.Case.SessionAGU {
+			agu = " AllowGlobalUpdate=by-session"
+		}
+	}
+	return fmt.Sprintf("model=%s%s :: db.%s  [%s]", ModelName[p.Case.Model], agu, strings.Join(parts, "."), strings.Join(cls, " "))
 }
 
 // ---------------------------------------------------------------------------
@@ -244,7 +256,7 @@ func (s Shape) Prog(classes []int) *Prog {
 
 // FullCase returns the serialisable form of a resolved program.
 func (p *Prog) FullCase() Case {
-	c := Case{Model: p.Case.Model, Fin: p.Fin.Label, Readable: p.String()}
+	c := Case{Model: p.Case.Model, Fin: p.Fin.Label, Readable: p.String(), Strict: p.Case.Strict, SessionAGU: p.Case.SessionAGU}
 	for _, o := range p.Ops {
 		c.Ops = append(c.Ops, o.Label)
 	}
